@@ -571,6 +571,33 @@ def gen_C16(ctx):
                 out.append(case("serde %s dev %s %s" % (sh, kind, hx(s)), "dev-string", s=s, shape=sh, kind=kind, reference=len(out) - 1))
             for kind in ("bytes", "bbytes", "char", "u64", "i64", "f64", "bool", "unit", "seq"):
                 out.append(case("serde %s dev %s %s" % (sh, kind, hx(s)), "dev-other", s=s, shape=sh, kind=kind))
+    # whole trees of values behind a deserializer for which `deserialize_str` is only a hint (as in the self-describing
+    # binary formats): PURL-shaped sequences and maps, wrapped and nested strings — only a string value is a PURL
+    import json as _j
+    trees = []
+    for ty_, ns_, nm_, ver_, q_, sub_ in (("npm", None, "foo", "1.0", None, None), ("npm", "", "foo", "1.0", {}, ""), ("maven", "org.x", "lib", "1", {"type": "jar"}, "a/b"),
+                                          ("generic", None, "n", None, None, None), ("t", "ns", "n", "1", {"k": "v", "checksum": "sha1:00"}, None), ("pypi", None, "A_b", "2", [], None)):
+        full = [ty_, ns_, nm_, ver_, q_, sub_]
+        keys = ["type", "namespace", "name", "version", "qualifiers", "subpath"]
+        for n_ in range(0, 8):
+            trees.append((full + [None, None])[:n_])
+        trees += [[ty_, nm_], [ty_, nm_, ver_], [ty_, ns_, nm_], [nm_, ver_], [[ty_, ns_, nm_, ver_, q_, sub_]], dict(zip(keys, full)), {k_: v_ for k_, v_ in zip(keys, full) if v_ is not None},
+                  {"type": ty_, "name": nm_}, dict(zip([k_[0] for k_ in keys], full)), {"0": ty_, "1": ns_, "2": nm_, "3": ver_, "4": q_, "5": sub_}, [[k_, v_] for k_, v_ in zip(keys, full)]]
+        s_ = "pkg:%s/%s%s%s" % (ty_, (ns_ + "/") if ns_ else "", nm_, ("@" + ver_) if ver_ else "")
+        trees += [[s_], [[s_]], {"purl": s_}, {s_: None}, {"Purl": s_}, {"GenericPurl": s_}, {"Some": s_}, [s_, None], [None, s_], {"$value": s_}, {"": s_}, [s_, s_], list(s_), {"String": s_}, {"str": s_}]
+    trees += [None, True, 0, -1, 1.5, [], {}, [None], [[]], {"a": {}}]
+    seen = set()
+    for tr in trees:
+        js = _j.dumps(tr, ensure_ascii=False)
+        if js in seen:
+            continue
+        seen.add(js)
+        for sh in ("S", "P"):
+            out.append(case("serde %s dev tree %s" % (sh, hx(js)), "dev-other", s=js, shape=sh, kind="tree"))
+    for s in ["pkg:npm/foo@1.0", "pkg:t/n?k=a%26b", "pkg:maven/g/a@1?type=jar#s", "nope", "", "pkg:pypi/A_b", "pkg:t/\"n\\"]:
+        for sh in ("S", "P"):
+            out.append(case("parse %s %s" % (sh, hx(s)), "de-reference", s=s, shape=sh))
+            out.append(case("serde %s dev tree %s" % (sh, hx(_j.dumps(s, ensure_ascii=False))), "dev-string", s=s, shape=sh, kind="tree", reference=len(out) - 1))
     return out
 
 
